@@ -44,6 +44,7 @@ struct SchedConfig {
   long livelock_yields = 64;     // yields without progress => livelock
   int yield_self_budget = 1;     // consecutive self continuations allowed at a yield point
   bool post_points = false;      // also schedule after every modifying atomic operation
+  bool track_atomics = false;    // remember every atomic variable seen (for tracked_atomics_hash)
   int ownership = 0;             // 0: all subgrids owned by thread 0, 1: round robin
   bool record_events = true;     // keep the textual event log
   std::function< void(const Event &) > monitor; // called for every event
@@ -55,6 +56,7 @@ extern SchedConfig sched;
 /// what the scheduler recorded (child side)
 struct SchedRecord {
   std::vector< int > choices, ncand;
+  std::vector< int > kinds; // kind of the pending operation of the current thread at each point
   std::vector< uint64_t > hashes;
   long steps = 0;
   int regions = 0;
@@ -66,6 +68,7 @@ struct SchedRecord {
 };
 extern SchedRecord rec;
 
+uint64_t tracked_atomics_hash();
 void add_violation(const std::string &key, const std::string &detail);
 void note_progress();
 void mark_seen(const std::string &what);
@@ -79,6 +82,7 @@ int current_thread();
 struct ExecResult {
   int verdict = V_CRASH;
   std::vector< int > choices, ncand;
+  std::vector< int > kinds;
   std::vector< uint64_t > hashes;
   long steps = 0;
   std::vector< std::string > violations;
@@ -113,6 +117,9 @@ struct ExploreOptions {
   bool use_hashing = false;   // prune at visited states (unbounded search only)
   bool unbounded = false;     // explore all alternatives (ignore max_bound)
   size_t max_failures = 5;
+  unsigned kind_mask = 0xffffffffu; // deviations only at points whose pending operation kind is in this mask
+  bool prune_bounded = false; // bounded search: stop at a state already visited with no more deviations used
+                              // (needs hash_states; heuristic when the hash does not cover all shared data)
   bool keep_events_on_failure = true;
 };
 
